@@ -96,10 +96,11 @@ impl ProgressValues {
 }
 impl AddAssign for ProgressValues {
     fn add_assign(&mut self, rhs: Self) {
-        self.work += rhs.work;
+        // Saturating, as the sizes of (sparse) files can add up to more than 2^64
+        self.work = self.work.saturating_add(rhs.work);
         self.delete += rhs.delete;
         self.copy += rhs.copy;
-        self.copy_bytes += rhs.copy_bytes;
+        self.copy_bytes = self.copy_bytes.saturating_add(rhs.copy_bytes);
     }
 }
 impl SubAssign for ProgressValues {
